@@ -34,3 +34,8 @@ unsigned long strlen(const char *s){ unsigned long n = 0; while (s[n]) n++; retu
 int memcmp(const void *a, const void *b, size_t n){ const unsigned char *x = a, *y = b; for (size_t i = 0; i < n; i++) { if (x[i] != y[i]) return x[i] < y[i] ? -1 : 1; } return 0; }
 int strcmp(const char *a, const char *b){ size_t i = 0; while (a[i] && a[i] == b[i]) i++; return (unsigned char) a[i] - (unsigned char) b[i]; }
 char* memchr(const char *s, int c, size_t n){ for (size_t i = 0; i < n; i++) if ((unsigned char) s[i] == (unsigned char) c) return (char*) s + i; return 0; }
+
+/* vtables of the C++ ABI type_info classes: only their addresses are taken (by typeinfo objects of thrown types) */
+char* G__ZTVN10__cxxabiv117__class_type_infoE[4];
+char* G__ZTVN10__cxxabiv120__si_class_type_infoE[4];
+char* G__ZTVN10__cxxabiv121__vmi_class_type_infoE[4];
